@@ -1333,6 +1333,25 @@ theorem sorted_decided (sh : Shape) (hu : ∀ k ∈ sh.keys, k.2 = .uint) (hk : 
       · simp [h1, h2, h3] at h
   · simp [h1] at h
 
+/-- **idempotence, identifier-less update, as lists**: laying the same item over every stored item a second time
+    changes nothing -/
+theorem idempotent_all (sh : Shape) (st : List Item) (u0 : Item) (rest : List Item)
+    (hl : ∀ a ∈ st, u0.length = a.length) (h : hasIdentifiers sh u0 = false) :
+    ∀ r, updateList sh false st (u0 :: rest) none none = .ok r →
+      ∃ r', updateList sh false r.out (u0 :: rest) none none = .ok r' ∧ r'.out = r.out ∧ r'.ok = true := by
+  intro r hr
+  rw [updateList_all_path sh st u0 rest h] at hr
+  injection hr with hr
+  subst hr
+  refine ⟨_, updateList_all_path sh _ u0 rest h, ?_, rfl⟩
+  show (st.map (copyNonNil u0)).map (copyNonNil u0) = st.map (copyNonNil u0)
+  rw [List.map_map]
+  apply List.map_congr_left
+  intro a ha
+  simp only [Function.comp]
+  rw [copyNonNil_eq_overlay u0 a (hl a ha), copyNonNil_eq_overlay u0 _ ((hl a ha).trans (overlay_length u0 a).symm),
+    overlay_idem]
+
 /-! ### histories through the per-type wrapper (`updateStore`, persisting local updates) -/
 
 /-- one restricted-exchange update: data, partial filter, delete filter -/
